@@ -26,3 +26,27 @@ Theorem C03_append_only :
   forall (to : fmt) (ds : list doc) (st : tstate) (i : nat),
     prefix_of (sink st) (sink (fst (run_docs to st ds i))).
 Proof. exact run_docs_extends. Qed.
+
+(* The YAML document iterator (src/yaml/chunker.rs).  For every byte stream and
+   every parser event stream that renders a well-formed list of document spans
+   (libyaml's contract: offsets monotone, within what was pulled, cuts on
+   UTF-8 boundaries), the chunker yields exactly one chunk per document, in
+   order, each the bytes between the previous document's end and its own end,
+   with its kind; the delayed last document is flushed at STREAM-END; none is
+   dropped, duplicated, merged or split; and it never panics. *)
+From XtModel Require Import Utf8 ChunkerModel ChunkerProofs.
+
+Theorem C03_chunker_exact :
+  forall (data : bytes) (ds : list docspan) (evs : list yev),
+    renders ds evs -> spans_wf data 0 ds ->
+    chunker data evs = map IDoc (slices data 0 ds).
+Proof. exact chunker_exact. Qed.
+
+(* No byte between documents is lost or duplicated: the chunks, concatenated,
+   are the stream up to the last document's end. *)
+Theorem C03_chunks_cover_the_stream :
+  forall (data : bytes) (ds : list docspan) (evs : list yev),
+    renders ds evs -> spans_wf data 0 ds ->
+    flat_map (fun i => match i with IDoc c => c_content c | _ => [] end) (chunker data evs) =
+      firstn (final_end 0 ds) data.
+Proof. exact chunks_cover_the_stream. Qed.
